@@ -23,7 +23,7 @@ PROP = "C38"
 RULE = ("case = one evdns_base (hosts file, search list, options, cache flag) + scripted A/AAAA answers + 1-5 getaddrinfo lookups at "
         "chosen virtual-time gaps; non-trivial = at least one lookup delivered addresses that were compared with the model "
         "(numeric/NULL/hosts/DNS union/cache hit); distinct = md5 of the case script")
-SIZES = dict(quick=2400, thorough=130000)
+SIZES = dict(quick=1800, thorough=100000)
 AF_INET, AF_INET6 = 2, 10
 T_A, T_AAAA, T_CNAME = 1, 28, 5
 
@@ -110,19 +110,22 @@ def simulate_type(rules, qtype, cands, t0, timeout, attempts):
     local = {}
     cons = []
     nodata_cn = []       # CNAMEs of replies that carried no address of the asked type
+    first = None         # rule applied to the very first query
     for ci, c in enumerate(cands):
         name = c.lower().rstrip(b".")
         tx = 0
         while True:
             r = rules.match(name, qtype, local)
             tx += 1
+            if ci == 0 and tx == 1:
+                first = r
             if r is None:
                 break
             cons.append((r, t))
             if r["rcode"] < 0:
                 t += timeout
                 if tx >= attempts:
-                    return dict(kind="timeout", t=t, addrs=[], cnames=[], cand=ci, cons=cons)
+                    return dict(kind="timeout", t=t, addrs=[], cnames=[], cand=ci, cons=cons, first=first)
                 continue
             t += r["delay"]
             if r["rcode"] != 0:
@@ -130,17 +133,22 @@ def simulate_type(rules, qtype, cands, t0, timeout, attempts):
             addrs = [(fam, rec[3], rec[2]) for rec in r["recs"] if rec[1] == qtype]
             cn = [rec[3] for rec in r["recs"] if rec[1] == T_CNAME]
             if addrs:
-                return dict(kind="ok", t=t, addrs=addrs, cnames=[(cn[0].lower(), cn[-1].lower())] if cn else [], cand=ci, cons=cons)
+                return dict(kind="ok", t=t, addrs=addrs, cnames=[(cn[0].lower(), cn[-1].lower())] if cn else [], cand=ci, cons=cons, first=first)
             if cn:
                 nodata_cn.append((cn[0].lower(), cn[-1].lower()))
             break
-    return dict(kind="err", t=t, addrs=[], cnames=[], nodata_cnames=nodata_cn, cand=len(cands) - 1, cons=cons)
+    return dict(kind="err", t=t, addrs=[], cnames=[], nodata_cnames=nodata_cn, cand=len(cands) - 1, cons=cons, first=first)
 
 
-def commit(outcomes, t_stop):
-    """the lookup stopped transmitting at t_stop (cancel / skew timeout): only earlier queries reached the servers"""
+def commit(outcomes, t_stop, first_only=False):
+    """the lookup stopped transmitting at t_stop (skew timeout): only earlier queries reached the servers.
+    first_only: cancelled right after the call - just the first query of each type was sent"""
     for o in outcomes:
         if o:
+            if first_only:
+                if o["first"] is not None:
+                    o["first"]["used"] += 1
+                continue
             for r, t_tx in o["cons"]:
                 if t_stop is None or t_tx <= t_stop:
                     r["used"] += 1
@@ -236,7 +244,7 @@ def judge_case(lines, case, ifmask):
             if node is not None and not flags & G.AI_NUMERICHOST and numeric_host(node) is None and cfg.f["timeout"] and cfg.f["attempts"]:
                 fam0 = effective_hints(h, ifmask)[0]
                 commit([simulate_type(rules, T_A, b["cands"], t0, min(cfg.f["timeout"]), min(cfg.f["attempts"])) if fam0 != AF_INET6 else None,
-                        simulate_type(rules, T_AAAA, b["cands"], t0, min(cfg.f["timeout"]), min(cfg.f["attempts"])) if fam0 != AF_INET else None], t0)
+                        simulate_type(rules, T_AAAA, b["cands"], t0, min(cfg.f["timeout"]), min(cfg.f["attempts"])) if fam0 != AF_INET else None], t0, True)
             return
         want_cname = bool(flags & G.AI_CANONNAME)
         npk = len(qs)
@@ -410,22 +418,26 @@ def judge_case(lines, case, ifmask):
                 viol("C38:cache-used-with-NO_CACHE", "EVDNS_BASE_NO_CACHE base answered %r with no query" % node); return
             if not origs:
                 viol("C38:answer-without-query-or-cache", "lookup of %r (err %d, %d entries) sent no query and nothing was cached" % (node, g["err"], len(g["ents"]))); return
-            # the hit must be explained by ONE answer delivered earlier for this name (an answer reported through the skew
-            # timeout is not cached, so the cache may still hold an older one): take the candidate that fits best
-            trials = []
-            gotset = set((e["fam"], e["addr"]) for e in g["ents"])
+            # the source of the hit: the cache holds the last answer that was delivered with both halves in (an answer reported
+            # through the skew timeout is not written); answers at the exact skew boundary may or may not have been written
+            cands_o = []
             for orig in reversed(origs):
+                if orig["complete"] is not False:
+                    cands_o.append(orig)
+                if orig["complete"] is True:
+                    break
+            if not cands_o:
+                viol("C38:answer-without-query-or-cache", "lookup of %r (err %d, %d entries) sent no query; no earlier answer can be in the cache" % (node, g["err"], len(g["ents"]))); return
+            trials = []
+            for k, orig in enumerate(cands_o):
                 tv, ts = [], {}
                 sink[0], sink[1] = tv, ts
                 try:
                     judge_hit(orig)
                 finally:
                     sink[0], sink[1] = V, S
-                wantset = set((f, a) for (f, a, ttl) in orig["addrs"] if fam in (0, f))
-                # rank: same address set first, then a subset of it, then anything; fewer complaints first; newer first
-                rank = 0 if gotset == wantset else (1 if gotset and gotset <= wantset else 2)
-                trials.append(((rank, len(tv)), tv, ts))
-                if rank == 0 and not tv:
+                trials.append(((1 if tv else 0, k), tv, ts))
+                if not tv:
                     break
             best = min(trials, key=lambda x: x[0])
             V.extend(best[1])
@@ -438,7 +450,9 @@ def judge_case(lines, case, ifmask):
         bad = [q for q in qs if q[0] not in cands or (q[1] == T_A and fam == AF_INET6) or (q[1] == T_AAAA and fam == AF_INET) or q[1] not in (T_A, T_AAAA)]
         if bad:
             viol("C38:unexpected-query", "lookup of %r family %d sent %r (candidates %r)" % (node, fam, bad[:3], cands))
-        prev = ([o for o in history.get(key, []) if o["complete"]] or [None])[-1]
+        prev = (history.get(key) or [None])[-1]
+        if prev and prev["complete"] is not True:
+            prev = None
         if prev and not nocache and prev["complete"] and (not want_cname or prev["canon_real"]) and \
                 0 <= t0 - prev["t_cb"] < (min(t for f, a, t in prev["addrs"]) - 0.5) * 1000000:
             # CALIBRATED: a complete answer still within every TTL is served from the cache (dns.h: "if the requested address is ... cached")
@@ -483,7 +497,7 @@ def judge_case(lines, case, ifmask):
         c0 = g["ents"][0]["canon"]
         # what a later cache hit is compared with: the answer as it was delivered now
         history.setdefault(key, []).append(dict(t_cb=g["t"], addrs=[(f, a, ttl) for o in contrib for (f, a, ttl) in o["addrs"]], merged=len(contrib) == 2,
-                            complete=complete and len(alts2) == 1, canon_ok={None if c0 is None else c0.lower().rstrip(b".")} | finals | firsts,
+                            complete=(None if len(alts2) > 1 else complete), canon_ok={None if c0 is None else c0.lower().rstrip(b".")} | finals | firsts,
                             canon_real=want_cname and c0 is not None))
         if not check_entries("dns", alt):
             return
